@@ -660,3 +660,23 @@ Proof.
     rewrite mresv_out by (intros i Hi E; apply (Hnr i); split; [exact Hi | symmetry; exact E]).
     rewrite asecs_out by exact Hns. reflexivity.
 Qed.
+
+Lemma sec_geometry off addr size :
+  0 < size -> addr + size <= two64 -> off <= addr ->
+  sec_cur addr = addr / 4096 /\ sec_n addr size = (addr + size - 1) / 4096 - addr / 4096 + 1 /\
+  sec_frame off addr = (addr - off) / 4096.
+Proof.
+  intros Hs Hw Ho.
+  assert (Ec: sec_cur addr = addr / 4096).
+  { unfold sec_cur. rewrite page_from_addr_shr, N.shiftr_div_pow2. reflexivity. }
+  assert (El: sec_last addr size = (addr + size - 1) / 4096).
+  { unfold sec_last. rewrite page_from_addr_shr, N.shiftr_div_pow2. change (2 ^ 12) with 4096.
+    assert (E1: w64 (size + (two64 - 1)) = size - 1) by (unfold w64, two64 in *; lia).
+    rewrite E1. assert (E2: w64 (addr + (size - 1)) = addr + size - 1) by (unfold w64, two64 in *; lia).
+    rewrite E2. reflexivity. }
+  split; [exact Ec|]. split.
+  - unfold sec_n. rewrite Ec, El. destruct (N.leb_spec (addr / 4096) ((addr + size - 1) / 4096)) as [H|H]; [reflexivity|].
+    exfalso. assert (addr <= addr + size - 1) by lia. pose proof (N.div_le_mono addr (addr + size - 1) 4096 ltac:(lia) H0). lia.
+  - unfold sec_frame. rewrite page_shift_val, N.shiftr_div_pow2. change (2 ^ 12) with 4096.
+    assert (E: w64 (addr + two64 - off) = addr - off) by (unfold w64, two64 in *; lia). rewrite E. reflexivity.
+Qed.
